@@ -2,7 +2,7 @@
    iteration order, Sum's law under its exact guard, and the bound behind the float32 guard. *)
 From Coq Require Import Permutation.
 From SC Require Import Base.Prelude Timeline.Timestamp Timeline.Segment Timeline.Mode Timeline.Own Timeline.Wrap
-  Timeline.TimestampProofs Timeline.SegmentProofs Timeline.ShiftSumProofs Timeline.C18Judge.
+  Timeline.TimestampProofs Timeline.SegmentProofs Timeline.ShiftSumProofs Timeline.ModeProofs Timeline.C18Judge.
 
 Local Arguments Z.add : simpl never.
 Local Arguments Z.sub : simpl never.
@@ -329,4 +329,126 @@ Proof.
   assert (abs_total (flat_map (cuts_of 0) ls) <= 2 * sumZ (map mag_budget ls)); [|lia].
   clear. induction ls as [|l ls IH]; simpl; [unfold abs_total; simpl; lia|].
   rewrite abs_total_app. pose proof (cuts_of_abs l 0). lia.
+Qed.
+
+
+(* ---- mode Sum under the exact guard ---- *)
+Lemma tail_level_shift_neg l : forall e cur, tail_level (shift_neg e cur l) = tail_level l.
+Proof.
+  induction l as [|[m [n|]] r IH]; intros e cur; simpl shift_neg; try reflexivity.
+  destruct (e <? cur + n); [|simpl; apply IH].
+  destruct (cut_seg (e - cur) (mkSeg m (Some n))) as [[b [a|]] o] eqn:E; [|reflexivity].
+  unfold cut_seg in E. simpl in E.
+  destruct (e - cur <=? 0); [inversion E; subst; reflexivity|].
+  destruct (n <=? e - cur); inversion E; subst; reflexivity.
+Qed.
+Lemma tail_level_shift d l : tail_level (shift d l) = tail_level l.
+Proof.
+  unfold shift. destruct (d =? 0); [reflexivity|]. destruct l as [|[m [n|]] r]; [reflexivity| |].
+  - destruct (0 <? d); [|apply tail_level_shift_neg]. simpl mag. simpl len. destruct (m =? 0); reflexivity.
+  - destruct (0 <? d); [|apply tail_level_shift_neg]. simpl mag. simpl len. destruct (m =? 0); reflexivity.
+Qed.
+
+Definition modes_tail (ms : list mode) : Z := sumZ (map (fun m => tail_level (msegs m)) ms).
+
+Theorem mode_sum_is_pointwise_tail ms s0 rest :
+  ms <> [] -> starts ms = s0 :: rest ->
+  forallb (fun m => segs_wf (msegs m)) ms = true -> 0 <= modes_tail ms ->
+  exists r, mode_sum ms = Some r /\
+    mstart r = Some (ts_of (minZ rest s0)) /\
+    forall x, minZ rest s0 <= x ->
+      mode_val r x = sumZ (map (fun m => val (msegs m) (x - mode_st (maxZ rest s0) m)) ms).
+Proof.
+  intros Hne Hst Hwf Hnn. unfold mode_sum. destruct ms as [|m0 ms']; [contradiction|].
+  rewrite Hst. eexists. split; [reflexivity|]. split; [reflexivity|].
+  intros x Hx. unfold mode_val. cbn [mstart msegs]. rewrite ts_val_ts_of.
+  rewrite sum_is_pointwise_tail.
+  - rewrite map_map. f_equal. apply map_ext_in. intros m Hm.
+    rewrite shift_is_translation.
+    + destruct (Z.ltb_spec (x - minZ rest s0) 0); [lia|]. unfold mode_st. f_equal.
+      destruct (mstart m); lia.
+    + rewrite forallb_forall in Hwf. apply Hwf. exact Hm.
+  - rewrite forallb_forall. intros l Hl. apply in_map_iff in Hl. destruct Hl as (m & <- & Hm).
+    apply shift_wf. rewrite forallb_forall in Hwf. apply Hwf. exact Hm.
+  - rewrite map_map. unfold modes_tail in Hnn.
+    rewrite (map_ext _ (fun m => tail_level (msegs m))); [exact Hnn|]. intros m. apply tail_level_shift.
+Qed.
+
+Theorem mode_sum_no_start_tail ms t :
+  ms <> [] -> starts ms = [] ->
+  forallb (fun m => segs_wf (msegs m)) ms = true -> 0 <= modes_tail ms ->
+  exists r, mode_sum ms = Some r /\ mstart r = None /\
+            val (msegs r) t = sumZ (map (fun m => val (msegs m) t) ms).
+Proof.
+  intros Hne Hst Hwf Hnn. unfold mode_sum. destruct ms as [|m0 ms']; [contradiction|].
+  rewrite Hst. eexists. split; [reflexivity|]. split; [reflexivity|]. cbn [msegs].
+  rewrite sum_is_pointwise_tail.
+  - rewrite map_map. reflexivity.
+  - rewrite forallb_forall. intros l Hl. apply in_map_iff in Hl. destruct Hl as (m & <- & Hm).
+    rewrite forallb_forall in Hwf. apply Hwf. exact Hm.
+  - rewrite map_map. exact Hnn.
+Qed.
+
+(* ---- whole histories: any expression built from literals, Shift and Sum ---- *)
+Inductive texpr :=
+| TLit (l : list seg)
+| TShift (d : Z) (e : texpr)
+| TSum (e1 e2 : texpr).
+
+(* evaluated with the library's functions *)
+Fixpoint teval (e : texpr) : list seg :=
+  match e with
+  | TLit l => l
+  | TShift d e => shift d (teval e)
+  | TSum e1 e2 => sum [teval e1; teval e2]
+  end.
+(* its meaning: a function of elapsed time *)
+Fixpoint tden (e : texpr) (t : Z) : Z :=
+  match e with
+  | TLit l => val l t
+  | TShift d e => if t <? 0 then 0 else tden e (t - d)
+  | TSum e1 e2 => tden e1 t + tden e2 t
+  end.
+(* literals well-formed; at every Sum node the open tails add up to >= 0 *)
+Fixpoint twf (e : texpr) : Prop :=
+  match e with
+  | TLit l => segs_wf l = true
+  | TShift _ e => twf e
+  | TSum e1 e2 => twf e1 /\ twf e2 /\ 0 <= tail_level (teval e1) + tail_level (teval e2)
+  end.
+
+Lemma sweep_wf cs : forall m last, lb last cs -> sorted cs -> segs_wf (sweep cs m last) = true.
+Proof.
+  induction cs as [|[a dl] r IH]; intros m last Hlb Hs; simpl sweep.
+  - unfold tail_seg. destruct (m <=? 0); reflexivity.
+  - destruct Hs as [Hlb_r Hs]. simpl fst in Hlb_r.
+    assert (Ha : last <= a) by (apply (Hlb (a, dl)); left; reflexivity).
+    destruct (Z.eqb_spec (a - last) 0).
+    + apply IH; [|exact Hs]. intros x Hx. specialize (Hlb_r x Hx). lia.
+    + unfold segs_wf. simpl. unfold seg_wf at 1. simpl.
+      destruct (Z.leb_spec 0 (a - last)); [|lia]. apply IH; assumption.
+Qed.
+
+Lemma sum_wf ls : forallb segs_wf ls = true -> segs_wf (sum ls) = true.
+Proof.
+  intros H. rewrite sum_is_sweep. destruct (calc_cuts_spec ls H) as (S1 & S2 & _). apply sweep_wf; assumption.
+Qed.
+
+Lemma teval_wf e : twf e -> segs_wf (teval e) = true.
+Proof.
+  induction e as [l|d e IH|e1 IH1 e2 IH2]; simpl; intros H.
+  - exact H.
+  - apply shift_wf. apply IH. exact H.
+  - destruct H as (H1 & H2 & _). apply sum_wf. simpl. rewrite (IH1 H1), (IH2 H2). reflexivity.
+Qed.
+
+Theorem timeline_expressions e : twf e -> forall t, val (teval e) t = tden e t.
+Proof.
+  induction e as [l|d e IH|e1 IH1 e2 IH2]; simpl; intros H t.
+  - reflexivity.
+  - rewrite shift_is_translation by (apply teval_wf; exact H). destruct (t <? 0); [reflexivity|]. apply IH. exact H.
+  - destruct H as (H1 & H2 & H3). rewrite sum_is_pointwise_tail.
+    + simpl. rewrite (IH1 H1), (IH2 H2). lia.
+    + simpl. rewrite (teval_wf e1 H1), (teval_wf e2 H2). reflexivity.
+    + simpl. lia.
 Qed.
